@@ -33,6 +33,26 @@ Tie to the code, every run:
                C19_restricted_search_misses say what a search confined to the sample range can
                reach.  The property oracle (mass under the estimator's own cdf and under the
                integral of its pdf) then reports the failing input.
+
+Round 4 (seeded changes C19_1 / C19_2 of that round were missed): theorems in Properties/C19Cdf.v about
+RealModel/UnimodalCdf.v -- the integration limits of the unimodal model, the mirror image of the family
+(log-density, Gauss-Chebyshev normaliser, density and limits of (-x0, s0, ln v, -f, k, q)), the cumulative
+function as cdf() assembles it (every value of one call is F(point) minus the probability below the lower limit,
+differences within one call are exact: C19_cdf_value_error / C19_cdf_differences_exact), and the type of the
+requested points (C19_typed_eval_float: with the float64 output buffer the answer depends on their value only).
+  [X-interval] lwr_limit / upr_limit of EVERY unimodal model fitted in the [R] stage against the model's limits at
+               the fitted MAP (coq-interval); log_pdf_model at whole-number points given as Python int / int32 /
+               int64 / float32 scalars, lists and arrays against the model at IZR x.
+  [X-exact]    typed query points: both estimators fitted to data in whole units; pdf and cdf asked at whole numbers
+               (inside, at the edges of, and 5 sd beyond the data) as Python int, list / tuple of ints, int32 / int64
+               arrays and scalars, float32 -- every answer must equal, as an exact rational (Coq), the answer to the
+               float64 request of the same values and shape (float32: 1e-6 relative).  Oracle: cdf at the point vs
+               the integral of the density up to it.
+  [R]          every skewed sample of the metamorphic runs is also fitted as its MIRROR IMAGE (transforms with
+               a < 0: ends swap, skewness changes sign), left-skewed base samples (-expn, -gamma, ...) go through the
+               shifts / scales, and the sweep has left-skewed entries; the cdf is read as a VALUE: single points
+               (one per call) inside and 3 sd beyond the data, and 14 / 1e3 / 1e6 sd below and above the data, alone
+               and both in one unsorted call: 0 and the total to within 0.02.
 """
 from __future__ import annotations
 
@@ -56,6 +76,14 @@ THEOREMS = ["C19_moments_shift_scale", "C19_kurtosis_invariant", "C19_skewness_s
             "C19_hdi_cost_q_correct", "C19_hdi_cost_small_bounds", "C19_confined_interval_mass",
             "C19_width_limited_search_misses", "C19_restricted_search_misses",
             "C19_check_interval_sound", "C19_check_interval_complete_mass"]
+# Properties/C19Cdf.v: the cdf as a value, integration limits, mirror image of the family, typed query points
+THEOREMS_CDF = ["C19_family_reflect_log", "C19_family_norm_reflect", "C19_family_reflect",
+                "C19_lwr_limit_reflect", "C19_upr_limit_reflect", "C19_lwr_limit_affine", "C19_upr_limit_affine",
+                "C19_limits_four_widths", "C19_samesign_limit_refuted",
+                "C19_cdf_values", "C19_cdf_base_bounds", "C19_cdf_value_error", "C19_cdf_single_point_error",
+                "C19_cdf_accurate_iff", "C19_cdf_differences_exact", "C19_cdf_below_limit",
+                "C19_typed_eval_float", "C19_typed_eval_dtype_irrelevant", "C19_like_buffer_truncates",
+                "C19_like_buffer_refuted"]
 
 HEADER = """From Coq Require Import List ZArith QArith.
 From IT Require Import Model.Moments.
@@ -236,6 +264,36 @@ def family_goals(r, quick):
         gid = f"fam_{k}"
         goals.append((gid, st, "uni_goal_pos" if x > x0 else "uni_goal_neg"))
         info[gid] = (x, th, got)
+    # the same method asked about WHOLE-NUMBER points of every type a caller may hold them in: the
+    # model's value at IZR x (RealModel.UnimodalCdf.qval) must be reproduced whatever the type
+    forms = [("Python int", int), ("int64 scalar", np.int64), ("int32 scalar", np.int32), ("float32 scalar", np.float32),
+             ("list of ints", lambda v: [int(v)]), ("int64 array", lambda v: np.array([v], dtype=np.int64)),
+             ("int32 array", lambda v: np.array([v], dtype=np.int32)), ("float32 array", lambda v: np.array([v], dtype=np.float32))]
+    for k in range(8 if quick else 48):
+        x0 = r.choice([0.0, 3.5, 1e3, 1e6]) + r.uniform(-1, 1)
+        s0 = r.choice([1.0, 40.0, 2.5e5]) * r.uniform(0.5, 2)
+        th = [x0, s0, r.uniform(0.0, 4.0), r.uniform(-2.5, 2.5), r.uniform(0.3, 15.0), r.uniform(1.0, 6.0)]
+        z0 = r.choice([-1, 1]) * 10 ** r.uniform(-0.5, 1.0)
+        xi = int(round(x0 + s0 * z0))
+        if not (0.03 <= abs(xi - x0) / s0 <= 12.0) or abs(xi) >= 2 ** 24:
+            continue
+        form, conv = forms[k % len(forms)]
+        try:
+            with warnings.catch_warnings():
+                warnings.simplefilter("ignore")
+                got = float(np.atleast_1d(UnimodalPdf.log_pdf_model(None, conv(xi), np.array(th)))[0])
+        except Exception as e:
+            got = float("nan")
+        gid = f"famtyped_{k}"
+        if got != got:
+            goals.append((gid, "False", "idtac"))       # raising / nan on a typed point: reported as a failed goal
+            info[gid] = (f"{form} {xi}", th, got)
+            continue
+        th_c = "(Build_theta " + " ".join(C.cR(v) for v in th) + ")"
+        tol = abs(C.frac(got)) / 10 ** 9 + Fraction(1, 10 ** 12)
+        st = f"Rabs (log_pdf_model {C.cR(xi)} {th_c} - {C.cR(got)}) <= {C.cR(tol)}"
+        goals.append((gid, st, "uni_goal_pos" if xi > x0 else "uni_goal_neg"))
+        info[gid] = (f"{form} {xi}", th, got)
     return goals, info
 
 
@@ -268,6 +326,8 @@ def family_affine_failures(r):
 
 # ---------------------------------------------------------------- 5. [R] metamorphic runs
 def gen_sample(kind, n, r):
+    if kind.startswith("-"):    # mirror image: the same draws, negated (left-skewed for gamma / lognormal / expn)
+        return -gen_sample(kind[1:], n, r)
     if kind == "normal":
         return np.array([r.gauss(0, 1) for _ in range(n)])
     if kind == "gamma":
@@ -301,8 +361,40 @@ def estimator_stats(cls, s):
         c = np.atleast_1d(e.cdf(xs))
         st["cdf_err"] = float(np.max(np.abs(c - np.interp(xs, x, integ))))
         st["cdf_monotone"] = bool(np.all(np.diff(c[np.argsort(xs)]) >= -1e-9))
+        # the cumulative function read as a VALUE, one point per call (differences between the
+        # elements of one array call are integrated point to point and cannot see a misplaced
+        # lower integration limit: C19_cdf_differences_exact / C19_cdf_value_error) ...
+        Z = float(integ[-1])
+        reads = []          # (what, x, got, expected)
+        for q in (-1.5, 0.4, 1.3):
+            xq = loc + q * sd
+            reads.append(("single point", xq, float(e.cdf(xq)), float(np.interp(xq, x, integ))))
+        for xq in (float(np.min(s)) - 3 * sd, float(np.max(s)) + 3 * sd):
+            expd = float(np.interp(xq, x, integ)) if x[0] <= xq <= x[-1] else (0.0 if xq < x[0] else Z)
+            reads.append(("single point beyond the data", xq, float(e.cdf(xq)), expd))
+        # ... and far below / above the data, alone and in one (unsorted) call
+        for Q in FAR_SD:
+            xl, xh = loc - Q * sd, loc + Q * sd
+            reads.append((f"single point {Q:g} sd below", xl, float(e.cdf(xl)), 0.0))
+            reads.append((f"single point {Q:g} sd above", xh, float(e.cdf(xh)), Z))
+            pair = np.atleast_1d(e.cdf(np.array([xh, xl])))
+            reads.append((f"array call, point {Q:g} sd above", xh, float(pair[0]), Z))
+            reads.append((f"array call, point {Q:g} sd below", xl, float(pair[1]), 0.0))
+        def _err(t):
+            return float(abs(t[2] - t[3])) if t[2] == t[2] else float("inf")
+        # near (inside the +-14 sd grid) and far reads are judged separately, so that each names its own failing input
+        near = [t for t in reads if abs(t[1] - loc) <= 14.0 * sd * (1 + 1e-9)]
+        far = [t for t in reads if t not in near]
+        st["cdf_value_worst"] = max(near, key=_err)
+        st["cdf_value_err"] = _err(st["cdf_value_worst"])
+        st["cdf_far_worst"] = max(far, key=_err)
+        st["cdf_far_err"] = _err(st["cdf_far_worst"])
+        if hasattr(e, "MAP"):
+            st["limits"] = ([float(v) for v in e.MAP], float(e.lwr_limit), float(e.upr_limit))
+            # probability the estimated density carries below / above its own integration limits
+            # (C19_cdf_value_error: this IS the amount every value of the cdf is short by)
+            st["outside_limits"] = (float(np.interp(e.lwr_limit, x, integ)), Z - float(np.interp(e.upr_limit, x, integ)))
         # moments of the estimator's own density, by brute force on the wide grid
-        Z = integ[-1]
         xm = 0.5 * (x[1:] + x[:-1])
         m1 = float(np.sum(w * xm) / Z)
         v = float(np.sum(w * (xm - m1) ** 2) / Z)
@@ -325,6 +417,12 @@ def self_consistency_failures(st, name, heavy):
         bad.append(f"{name}: density integrates to {st['norm']:.4f}")
     if st["cdf_err"] > 0.02 or not st["cdf_monotone"]:
         bad.append(f"{name}: cdf differs from the integral of the pdf by {st['cdf_err']:.3g}")
+    for key in ("cdf_value", "cdf_far"):
+        if not st[key + "_err"] <= 0.02:
+            what, xq, got, expd = st[key + "_worst"]
+            bad.append(f"{name}: cdf({xq!r}) = {got!r} ({what}) but the density integrates to {expd:.5f} up to there"
+                       + (f"; its integration limits ({st['limits'][1]!r}, {st['limits'][2]!r}) leave {st['outside_limits'][0]:.4f} "
+                          f"below and {st['outside_limits'][1]:.4f} above" if "limits" in st else ""))
     if st["pmode_ratio"] < 0.9:
         bad.append(f"{name}: density at the reported mode is {st['pmode_ratio']:.3f} of the maximum")
     for f in (0.5, 0.9):
@@ -347,7 +445,8 @@ def self_consistency_failures(st, name, heavy):
 
 def covariance_failures(st, st2, a, b, name):
     bad = []
-    sd = a * st["sd"]
+    sd = abs(a) * st["sd"]
+    sgn = 1.0 if a > 0 else -1.0       # a < 0: mirror image -- ends swap, skewness changes sign
     tag = f"{name}, data -> {a}*x + {b}"
     if abs(st2["mode"] - (a * st["mode"] + b)) > 0.6 * sd:
         bad.append(f"{tag}: mode {st2['mode']!r} instead of {a * st['mode'] + b!r} (sd {sd:.3g})")
@@ -356,8 +455,8 @@ def covariance_failures(st, st2, a, b, name):
         bad.append(f"{tag}: mean {m2[0]!r} instead of {a * m[0] + b!r} (sd {sd:.3g})")
     if not abs(m2[1] / (a * a * m[1]) - 1) <= 0.05:
         bad.append(f"{tag}: variance {m2[1]!r} instead of {a * a * m[1]!r}")
-    if not abs(m2[2] - m[2]) <= 0.2 + 0.15 * abs(m[2]):
-        bad.append(f"{tag}: skewness {m2[2]:.4g} instead of {m[2]:.4g}")
+    if not abs(m2[2] - sgn * m[2]) <= 0.2 + 0.15 * abs(m[2]):
+        bad.append(f"{tag}: skewness {m2[2]:.4g} instead of {sgn * m[2]:.4g}")
     # the fitted estimators come out of Nelder-Mead with absolute tolerances, so the shape moments of
     # two fits of affinely related data agree only to the optimiser's noise, which grows with the
     # size of the moment itself (measured: 0.74 on a kurtosis of 3.1 for a lognormal sample)
@@ -365,34 +464,46 @@ def covariance_failures(st, st2, a, b, name):
         bad.append(f"{tag}: excess kurtosis {m2[3]:.4g} instead of {m[3]:.4g}")
     for f in (0.5, 0.9):
         for i in (0, 1):
-            if not abs(st2[f"int{f}"][i] - (a * st[f"int{f}"][i] + b)) <= 0.2 * sd:
-                bad.append(f"{tag}: interval({f}) end {st2[f'int{f}'][i]!r} instead of {a * st[f'int{f}'][i] + b!r}")
+            want = a * st[f"int{f}"][i if a > 0 else 1 - i] + b
+            if not abs(st2[f"int{f}"][i] - want) <= 0.2 * sd:
+                bad.append(f"{tag}: interval({f}) end {st2[f'int{f}'][i]!r} instead of {want!r}")
                 break
     return bad
 
 
 TRANSFORMS = [(1.0, 1e3), (1.0, 1e6), (1e-6, 0.0), (1e6, 0.0), (1e-3, 1e3), (37.0, -1e6)]
+# mirror images (C19_family_reflect, C19_lwr_limit_reflect, C19_moments_shift_scale with a < 0): every
+# skewed sample of every run is also fitted reflected, so that left-skewed data occur wherever
+# right-skewed data do
+REFLECTIONS = [(-1.0, 0.0), (-1e-6, 5.0), (-37.0, 1e6), (-1.0, 1e3)]
+SKEWED = ("gamma", "lognormal", "expn")
+FAR_SD = (14.0, 1e3, 1e6)      # how far from the data (in sample standard deviations) the cdf is read
 
 
-def metamorphic_case(est, kind, n, stream, transforms):
-    """Returns list of failure strings for one seeded sample."""
+def metamorphic_case(est, kind, n, stream, transforms, collect=None):
+    """Returns list of failure strings for one seeded sample.  `collect` (a list) receives
+    (transform, (MAP, lwr_limit, upr_limit), probability outside the limits) of every unimodal fit."""
     GaussianKDE, UnimodalPdf, _ = mods()
     cls = GaussianKDE if est == "kde" else UnimodalPdf
     r = C.rng_for(PROP, stream)
     s = gen_sample(kind, n, r)
-    heavy = kind in ("t5", "lognormal")     # heavy right/both tails: higher moments are dominated by the tail cut-off
+    heavy = kind.lstrip("-") in ("t5", "lognormal", "expn")     # heavy (exponential / power-law) right/both tails: higher moments are dominated by the tail cut-off
     bad = []
     try:
         st = estimator_stats(cls, s)
     except Exception as e:
         return [f"{est} on a {kind} sample of {n}: raises {e!r}"[:300]]
     bad += self_consistency_failures(st, f"{est}/{kind}/{n}", heavy)
+    if collect is not None and "limits" in st:
+        collect.append(((1.0, 0.0), st["limits"], st["outside_limits"]))
     for a, b in transforms:
         try:
             st2 = estimator_stats(cls, a * s + b)
         except Exception as e:
             bad.append(f"{est}/{kind}/{n}, data -> {a}*x + {b}: raises {e!r}"[:300])
             continue
+        if collect is not None and "limits" in st2:
+            collect.append(((a, b), st2["limits"], st2["outside_limits"]))
         bad += self_consistency_failures(st2, f"{est}/{kind}/{n} [{a}*x + {b}]", heavy)
         bad += covariance_failures(st, st2, a, b, f"{est}/{kind}/{n}")
     return bad
@@ -409,7 +520,8 @@ SWEEP_ENDS = Fraction(1, 50)        # on wt * (Pa - Pb) = 0.2 * (end-density mis
 SWEEP_RTOL, SWEEP_ATOL = Fraction(1, 10 ** 6), Fraction(1, 10 ** 22)   # float cost vs exact cost of the same end values
 SWEEP_TRANSFORMS = [(1.0, 0.0)] + TRANSFORMS
 SWEEP_BASE = [("kde", "normal"), ("kde", "gamma"), ("kde", "expn"), ("kde", "t5"),
-              ("uni", "normal"), ("uni", "gamma"), ("uni", "expn"), ("uni", "lognormal")]
+              ("uni", "normal"), ("uni", "gamma"), ("uni", "expn"), ("uni", "lognormal"),
+              ("uni", "-gamma"), ("kde", "-expn")]      # left-skewed: mirror images
 
 
 def sweep_plan(r, quick):
@@ -572,6 +684,178 @@ def interval_property_failures(est, kind, n, tr, stream, f):
     return bad
 
 
+# ---------------------------------------------------------------- 7. typed query points
+#   Data in whole units; the points the estimators are asked about are whole numbers handed over as
+#   a Python int, a list / tuple of ints, int32 / int64 arrays and scalars, float32 -- for every
+#   method that takes points (pdf = __call__, cdf) of both estimators.  Model: RealModel.UnimodalCdf
+#   typed_eval with the float64 buffer; C19_typed_eval_float says the answer depends on the VALUE of
+#   the points only, so every typed answer must equal the answer to the float64 request of the same
+#   values and shape (compared in Coq as exact rationals).
+TYPED_UNITS = [(50.0, 10.0), (0.0, 3.0), (1.0e6, 25.0), (-4000.0, 150.0)]
+TYPED_BASE = [("kde", "normal"), ("uni", "-expn"), ("kde", "-gamma"), ("uni", "normal"),
+              ("kde", "expn"), ("uni", "gamma"), ("kde", "t5"), ("uni", "-lognormal")]
+TYPED_F32_RTOL = Fraction(1, 10 ** 6)
+
+
+def typed_plan(r, quick):
+    off = r.randrange(len(TYPED_UNITS))
+    base = TYPED_BASE[:4] if quick else TYPED_BASE
+    return [(est, kind, r.randint(150, 400), TYPED_UNITS[(j + off) % len(TYPED_UNITS)]) for j, (est, kind) in enumerate(base)]
+
+
+def typed_points(s):
+    loc, sd = float(np.mean(s)), float(np.std(s))
+    q = [int(round(loc + k * sd)) for k in (-2, -1, 0, 1, 2)]
+    q += [int(round(float(np.min(s)) - 5 * sd)), int(round(float(np.max(s)) + 5 * sd))]
+    q = [q[i] for i in (3, 0, 6, 2, 5, 4, 1)]         # not sorted
+    return list(dict.fromkeys(q))
+
+
+def typed_requests(q):
+    """(form, shape, request): shape 'array' answers are compared with the float64 array request,
+    shape i with the float64 scalar request at q[i]."""
+    qa = np.array(q, dtype=np.int64)
+    out = [("list of ints", "array", [int(v) for v in q]), ("tuple of ints", "array", tuple(int(v) for v in q)),
+           ("int64 array", "array", qa), ("int32 array", "array", qa.astype(np.int32))]
+    f32 = all(float(np.float32(v)) == float(v) for v in q)
+    if f32:
+        out.append(("float32 array", "array", qa.astype(np.float32)))
+    for i, v in enumerate(q):
+        out += [("Python int", i, int(v)), ("int64 scalar", i, np.int64(v)), ("int32 scalar", i, np.int32(v))]
+        if f32:
+            out.append(("float32 scalar", i, np.float32(v)))
+    return out
+
+
+def typed_fit(est, kind, n, unit, stream):
+    GaussianKDE, UnimodalPdf, _ = mods()
+    z = gen_sample(kind, n, C.rng_for(PROP, stream))
+    s = unit[0] + unit[1] * z
+    with warnings.catch_warnings():
+        warnings.simplefilter("ignore")
+        return (GaussianKDE if est == "kde" else UnimodalPdf)(s), s
+
+
+def typed_case(est, kind, n, unit, stream):
+    """Records (method, form, point index or None, point, observed, reference, error)."""
+    try:
+        e, s = typed_fit(est, kind, n, unit, stream)
+    except Exception as ex:
+        return None, [("fit", "", None, None, None, None, "fitting raises " + repr(ex)[:200])]
+    q = typed_points(s)
+    recs = []
+    with warnings.catch_warnings():
+        warnings.simplefilter("ignore")
+        for mname, m in (("pdf", e.__call__), ("cdf", e.cdf)):
+            try:
+                ref_arr = [float(v) for v in np.atleast_1d(m(np.array(q, dtype=np.float64)))]
+                ref_sc = [float(m(float(v))) for v in q]
+            except Exception as ex:
+                recs.append((mname, "float64", None, None, None, None, "raises " + repr(ex)[:200]))
+                continue
+            for form, shape, req in typed_requests(q):
+                try:
+                    got = np.atleast_1d(m(req))
+                    if shape == "array":
+                        if got.shape != (len(q),):
+                            raise ValueError(f"answer of shape {got.shape} for {len(q)} points")
+                        for i, v in enumerate(got):
+                            recs.append((mname, form, i, q[i], C.frac(v), C.frac(ref_arr[i]), None))
+                    else:
+                        if got.shape != (1,):
+                            raise ValueError(f"answer of shape {got.shape} for one point")
+                        recs.append((mname, form, shape, q[shape], C.frac(got[0]), C.frac(ref_sc[shape]), None))
+                except Exception as ex:
+                    recs.append((mname, form, None if shape == "array" else shape, None, None, None, "raises " + repr(ex)[:200]))
+    return q, recs
+
+
+def typed_property_failures(est, kind, n, unit, stream, method, form, index):
+    """The property on the real code for one typed request: the cdf at the point must be the integral
+    of the estimated density up to it, the density a function of the location alone."""
+    name = f"{est} fitted to the seeded {kind} sample of {n} in whole units (x -> {unit[0]} + {unit[1]}*x)"
+    try:
+        e, s = typed_fit(est, kind, n, unit, stream)
+    except Exception as ex:
+        return [f"{name}: fitting raises {ex!r}"[:300]]
+    q = typed_points(s)
+    req = {(f, sh): rq for f, sh, rq in typed_requests(q)}
+    shape = "array" if (form, "array") in req else index
+    if (form, shape) not in req:
+        return []
+    m = e.__call__ if method == "pdf" else e.cdf
+    bad = []
+    with warnings.catch_warnings():
+        warnings.simplefilter("ignore")
+        try:
+            got = np.atleast_1d(m(req[(form, shape)]))
+        except Exception as ex:
+            return [f"{name}: {method}({form} {req[(form, shape)]!r}) raises {ex!r}"[:400]]
+        loc, sd = float(np.mean(s)), float(np.std(s))
+        for j, i in enumerate(range(len(q)) if shape == "array" else [shape]):
+            if j >= got.size:
+                break
+            x = np.linspace(min(loc, q[i]) - 14 * sd, float(q[i]), 7001)
+            p = np.atleast_1d(e(x))
+            integral = float(np.sum(0.5 * (p[1:] + p[:-1]) * np.diff(x)))
+            ask = f"{form} {req[(form, shape)]!r}" if shape == "array" else f"{form} {q[i]}"
+            if method == "cdf" and not abs(float(got[j]) - integral) <= 0.02:
+                bad.append(f"{name}: cdf({ask}) gives {got[j]!r} at {q[i]} but the density integrates to {integral:.5f} "
+                           f"up to that point (asked with the float {float(q[i])!r}: {float(e.cdf(float(q[i])))!r})")
+            if method == "pdf":
+                ref = float(e(float(q[i])))
+                if not abs(float(got[j]) - ref) <= 1e-6 * abs(ref) + 1e-300:
+                    bad.append(f"{name}: the density at {q[i]} is {got[j]!r} when asked with {ask} "
+                               f"but {ref!r} when asked with the float {float(q[i])!r}")
+    return bad
+
+
+# ---------------------------------------------------------------- 8. integration limits of the fitted unimodal model
+LIMIT_PREAMBLE = """Set Warnings "-ambiguous-paths".
+From Coq Require Import Reals List.
+From Interval Require Import Tactic.
+From IT Require Import RealModel.Unimodal RealModel.UnimodalCdf.
+Import ListNotations.
+Open Scope R_scope.
+Ltac limit_goal := unfold lwr_limit, upr_limit; cbn [t_x0 t_s0 t_lnv t_f t_k t_q]; split; interval with (i_prec 100).
+"""
+
+
+def limit_goal(gid, MAP, lwr, upr):
+    x0, s0, lnv, f, k, q = MAP
+    th_c = "(Build_theta " + " ".join(C.cR(v) for v in MAP) + ")"
+    tol = (abs(C.frac(x0)) + abs(C.frac(s0)) * C.frac(4 * math.exp(abs(f)) + 1)) / 10 ** 12 + Fraction(1, 10 ** 300)
+    st = (f"Rabs (lwr_limit {th_c} - {C.cR(lwr)}) <= {C.cR(tol)} /\\ "
+          f"Rabs (upr_limit {th_c} - {C.cR(upr)}) <= {C.cR(tol)}")
+    return (gid, st, "limit_goal")
+
+
+def limit_property_failures(est, kind, n, stream, tr):
+    """A misplaced limit shows in the cdf read as a value on the sample whose wide tail faces it:
+    fit the sample AND its mirror image under the transform, read the cdf at single points."""
+    _, UnimodalPdf, _ = mods()
+    bad = []
+    for mirror in (False, True):
+        k2 = (kind[1:] if kind.startswith("-") else "-" + kind) if mirror else kind
+        z = gen_sample(k2, n, C.rng_for(PROP, stream))
+        s = tr[0] * z + tr[1]
+        try:
+            st = estimator_stats(UnimodalPdf, s)
+        except Exception as ex:
+            bad.append(("raises", f"uni on the seeded {k2} sample of {n} under x -> {tr[0]}*x + {tr[1]}: raises {ex!r}"[:300]))
+            continue
+        for key in ("cdf_value", "cdf_far"):
+            if st[key + "_err"] <= 0.02:
+                continue
+            what, xq, got, expd = st[key + "_worst"]
+            bad.append((key, f"uni fitted to the seeded {k2} sample of {n} under x -> {tr[0]}*x + {tr[1]} (fitted asymmetry f = "
+                       f"{st['limits'][0][3]:.3f}): cdf({xq!r}) = {got!r} ({what}) but the density integrates to {expd:.5f} "
+                       f"up to there; integration limits ({st['limits'][1]!r}, {st['limits'][2]!r}) leave "
+                       f"{st['outside_limits'][0]:.4f} below and {st['outside_limits'][1]:.4f} above"))
+    # reads inside / just beyond the data first: they are what a misplaced limit changes
+    return [m for k, m in bad if k == "cdf_value"] + [m for k, m in bad if k != "cdf_value"]
+
+
 # ---------------------------------------------------------------- Coq side
 def qpairs(xs, ps):
     return C.clist([f"({C.cq(x)}, {C.cq(p)})" for x, p in zip(xs, ps)]) + "%Q"
@@ -579,6 +863,27 @@ def qpairs(xs, ps):
 
 def q4(v):
     return "(" + ", ".join(C.cq(x) for x in v) + ")"
+
+
+def meta_transforms(j, kind, quick):
+    tr = TRANSFORMS if not quick else [TRANSFORMS[(j + i) % len(TRANSFORMS)] for i in (0, 1, 2)] + [TRANSFORMS[1]]
+    if kind.lstrip("-") in SKEWED:        # every skewed sample is also fitted as its mirror image
+        tr = tr + ([REFLECTIONS[j % len(REFLECTIONS)]] if quick else [REFLECTIONS[j % len(REFLECTIONS)], REFLECTIONS[(j + 1) % len(REFLECTIONS)]])
+    elif not quick:
+        tr = tr + [REFLECTIONS[j % len(REFLECTIONS)]]
+    return list(dict.fromkeys(tr))
+
+
+def meta_plan(quick):
+    plan = [("kde", "normal", 400), ("kde", "gamma", 1500), ("kde", "t5", 700),
+            ("uni", "normal", 500), ("uni", "gamma", 2500), ("uni", "lognormal", 900),
+            ("uni", "normal", 4500)]      # >= 4000 points: UnimodalPdf fits a sub-sample first, then re-fits
+    # left-skewed base samples (mirror images of the skewed families), under shifts and scales
+    plan += [("uni", "-expn", 700), ("kde", "-gamma", 500)]
+    if not quick:
+        plan += [("kde", "lognormal", 12000), ("uni", "t5", 800), ("uni", "normal", 20000), ("kde", "gamma", 300),
+                 ("uni", "-gamma", 1200), ("uni", "-lognormal", 900), ("kde", "-lognormal", 2000), ("kde", "-expn", 400)]
+    return plan
 
 
 def run(rep: C.Report, tier: str) -> int:
@@ -594,7 +899,9 @@ def run(rep: C.Report, tier: str) -> int:
     C.prove_and_audit(rep, PROP, THEOREMS)
     lap("audit")
     from concurrent.futures import ThreadPoolExecutor
-    pool = ThreadPoolExecutor(max_workers=3)
+    pool = ThreadPoolExecutor(max_workers=6)
+    # Properties/C19Cdf.v is audited while the implementation runs (collected before the Coq results)
+    fut_audit_cdf = pool.submit(C.coq_audit, "C19_cdf", THEOREMS_CDF, "IT.Properties.C19Cdf")
     RTOL = Fraction(1, 10 ** 6)
 
     # ---- tables
@@ -664,18 +971,19 @@ def run(rep: C.Report, tier: str) -> int:
     lap("generate + run implementation")
 
     # ---- [R] metamorphic runs (tests)
-    plan = [("kde", "normal", 400), ("kde", "gamma", 1500), ("kde", "t5", 700),
-            ("uni", "normal", 500), ("uni", "gamma", 2500), ("uni", "lognormal", 900),
-            ("uni", "normal", 4500)]      # >= 4000 points: UnimodalPdf fits a sub-sample first, then re-fits
-    if not quick:
-        plan += [("kde", "lognormal", 12000), ("uni", "t5", 800), ("uni", "normal", 20000), ("kde", "gamma", 300)]
+    plan = meta_plan(quick)
     n_runs = 0
     meta_viol = []
+    fitted_limits = []          # (plan index, transform, (MAP, lwr, upr), outside)
     for j, (est, kind, n) in enumerate(plan):
-        tr = TRANSFORMS if not quick else [TRANSFORMS[(j + i) % len(TRANSFORMS)] for i in (0, 1, 2)] + [TRANSFORMS[1]]
-        tr = list(dict.fromkeys(tr))
+        tr = meta_transforms(j, kind, quick)
         stream = f"meta/{est}/{kind}/{n}"
-        bad = metamorphic_case(est, kind, n, stream, tr)
+        got = []
+        bad = metamorphic_case(est, kind, n, stream, tr, got)
+        fitted_limits += [(j, t, lim, out) for t, lim, out in got]
+        for t in tr:
+            if t[0] < 0:
+                rep.count(f"[R] mirror image of {kind}")
         n_runs += 1 + len(tr)
         rep.count(f"[R] {est}/{kind}")
         rep.case(("meta", est, kind, n), nontrivial=True)
@@ -687,7 +995,46 @@ def run(rep: C.Report, tier: str) -> int:
     if bad:
         meta_viol.append((bad[0], {"check": "family-affine"}))
     rep.coverage["metamorphic_fits_R"] = n_runs
+    # ---- integration limits of every unimodal fit above against RealModel.UnimodalCdf (interval goals)
+    lgoals = [limit_goal(f"lim_{i}", lim[0], lim[1], lim[2]) for i, (j, t, lim, out) in enumerate(fitted_limits)]
+    for j, t, lim, out in fitted_limits:
+        f_ = lim[0][3]
+        rep.count("limits: fitted asymmetry f " + ("< -0.3" if f_ < -0.3 else "> 0.3" if f_ > 0.3 else "in [-0.3, 0.3]"))
+    rep.coverage["unimodal_limits"] = {
+        "fits": len(fitted_limits),
+        "largest_probability_below_lwr_limit": max([o[0] for _, _, _, o in fitted_limits], default=None),
+        "largest_probability_above_upr_limit": max([o[1] for _, _, _, o in fitted_limits], default=None)}
+    fut_limits = pool.submit(I.check_goals, PROP, "limits", lgoals, LIMIT_PREAMBLE, "", 8, 4, 600)
     lap("[R] metamorphic runs")
+
+    # ---- typed query points (whole numbers as ints / int arrays / float32), both estimators, pdf and cdf
+    tplan = typed_plan(C.rng_for(PROP, "typed-plan"), quick)
+    typed = []          # (plan index, record)
+    for j, (est, kind, n, unit) in enumerate(tplan):
+        q, recs = typed_case(est, kind, n, unit, f"typed/{j}/{est}/{kind}")
+        rep.case(("typed", est, kind, n, unit), nontrivial=True)
+        rep.count(f"typed queries {est} data unit {unit[1]:g} at {unit[0]:g}")
+        if j < 2:
+            rep.sample({"typed": [est, kind, n, list(unit)], "points": q})
+        for rec in recs:
+            rep.count(f"typed {rec[0]} / {rec[1]}")
+            typed.append((j, rec))
+    ty_ok = [(j, rec) for j, rec in typed if rec[6] is None]
+    ty_texts = []
+    for j, rec in ty_ok:
+        tol = TYPED_F32_RTOL * abs(rec[5]) + Fraction(1, 10 ** 12) if rec[1].startswith("float32") else Fraction(0)
+        ty_texts.append(f"({C.cq(rec[4])}, {C.cq(rec[5])}, {C.cq(tol)})")
+    typed_file = None
+    if ty_texts:
+        body = ("Definition cases : list (Q*Q*Q) :=\n " + C.clist(ty_texts, ";\n ") + ".\n"
+                "Definition chk (c : Q*Q*Q) : nat := let '(o, ref, tol) := c in "
+                "if Qle_bool (Qabs.Qabs (o - ref)) tol then 0%nat else 1%nat.")
+        typed_file = C.write_case_file(PROP, "typed_0", HEADER.replace("ZArith QArith.", "ZArith QArith Qabs."), body,
+                                       ["failing_codes chk cases 0"])
+        fut_typed = pool.submit(C.run_case_file, typed_file)
+    rep.coverage["typed_queries"] = {"estimators": len(tplan), "answers_compared": len(ty_ok),
+                                     "requests_raising": len(typed) - len(ty_ok)}
+    lap("typed queries")
 
     # ---- interval sweep: small samples, fractions over all of (0, 1), judged in Coq
     splan = sweep_plan(C.rng_for(PROP, "sweep-plan"), quick)
@@ -730,6 +1077,13 @@ def run(rep: C.Report, tier: str) -> int:
     lap("interval sweep")
 
     # ---- collect Coq results
+    try:
+        rep.coverage["cdf_theorems_audit"] = fut_audit_cdf.result()
+        rep.obligation(True, len(THEOREMS_CDF))
+    except C.ProofFailure as e:
+        rep.obligation(False, len(THEOREMS_CDF))
+        rep.violation("C19/proof", f"proof obligation no longer checks: {e.what}",
+                      {"theorem_or_correspondence": e.what, "log": e.log[-1500:]}, False)
     outs = fut_cases.result()
     disagreements = []
     for p, idx, kind, (ok, res, log) in zip(files, index, kinds, outs):
@@ -795,6 +1149,61 @@ def run(rep: C.Report, tier: str) -> int:
             rp["theorem_or_correspondence"] = "Model.Moments.check_interval (C19_check_interval_sound)"
             sweep_viol.append((f"interval({rec['f']!r}) of {est} on the seeded {kind} sample of {n}: the values read by the real "
                                f"__hdi_cost at the returned interval are rejected by the model's judgement (code {code})", rp, False))
+    # integration limits of the fitted unimodal models
+    limit_viol = []
+    lfailed, lbroken = fut_limits.result()
+    rep.obligation(True, len(lgoals) - len(lfailed))
+    rep.obligation(False, len(lfailed))
+    rep.coverage["unimodal_limits"]["goals"] = len(lgoals)
+    rep.coverage["unimodal_limits"]["failed"] = len(lfailed)
+    for b in lbroken:
+        rep.violation("C19/goal-run", "a goal file could not be processed",
+                      {"theorem_or_correspondence": "generated interval goals (integration limits)", "log": b[-800:]}, False)
+    if lfailed:
+        # the fit whose limits are furthest from the model's among the rejected ones is the most telling
+        idx = [int(gid.split("_")[1]) for gid, _ in lfailed]
+        i = max(idx, key=lambda i_: abs(fitted_limits[i_][2][0][3]))
+        j, t, lim, out = fitted_limits[i]
+        est, kind, n = plan[j]
+        rp = {"check": "limits", "estimator": est, "kind": kind, "n": n, "stream": f"meta/{est}/{kind}/{n}",
+              "transform": list(t), "MAP": lim[0], "lwr_limit": lim[1], "upr_limit": lim[2]}
+        bad = limit_property_failures(est, kind, n, rp["stream"], t)
+        if bad:
+            limit_viol.append((bad[0], rp, True))
+        else:
+            rp["theorem_or_correspondence"] = "RealModel.UnimodalCdf.lwr_limit / upr_limit (C19_lwr_limit_reflect, C19_limits_four_widths)"
+            limit_viol.append((f"the integration limits ({lim[1]!r}, {lim[2]!r}) of the unimodal model fitted to the seeded {kind} sample "
+                               f"of {n} under x -> {t[0]}*x + {t[1]} (MAP {lim[0]}) are not the model's ({len(lfailed)} of {len(lgoals)} fits)",
+                               rp, False))
+    # typed query points
+    typed_viol = []
+    ty_flagged = [(j, rec) for j, rec in typed if rec[6] is not None]
+    if typed_file is not None:
+        ok, res, log = fut_typed.result()
+        if not ok or 0 not in res:
+            rep.obligation(False)
+            rep.violation("C19/correspondence-run", f"case file {typed_file.name} did not evaluate",
+                          {"theorem_or_correspondence": f"correspondence file {typed_file.name}", "log": log[-800:]}, False)
+        else:
+            rep.obligation(True)
+            codes = res[0]
+            ty_flagged += [ty_ok[codes[i]] for i in range(0, len(codes) - 1, 2)]
+    rep.coverage["typed_queries"]["disagreements"] = len(ty_flagged)
+    seen_ty = set()
+    for j, rec in ty_flagged:
+        est, kind, n, unit = tplan[j]
+        if (est, rec[0]) in seen_ty:
+            continue
+        seen_ty.add((est, rec[0]))
+        rp = {"check": "typed", "estimator": est, "kind": kind, "n": n, "unit": list(unit), "stream": f"typed/{j}/{est}/{kind}",
+              "method": rec[0], "form": rec[1], "index": rec[2]}
+        bad = typed_property_failures(est, kind, n, unit, rp["stream"], rec[0], rec[1], rec[2]) if rec[0] != "fit" else [rec[6]]
+        if bad:
+            typed_viol.append((bad[0], rp, True))
+        else:
+            rp["theorem_or_correspondence"] = "RealModel.UnimodalCdf.typed_eval BufFloat (C19_typed_eval_float)"
+            typed_viol.append((f"{est}.{rec[0]} asked with {rec[1]} at {rec[3]} answers {float(rec[4]) if rec[4] is not None else rec[6]!r}, "
+                               f"with the float64 of the same value {float(rec[5]) if rec[5] is not None else None!r}", rp, False))
     lap("wait: Coq")
 
     # ---- failing-input search for the exact disagreements
@@ -826,7 +1235,7 @@ def run(rep: C.Report, tier: str) -> int:
                           {"theorem_or_correspondence": "Model.Moments.hdi_cost_q",
                            "inputs": {"w": str(w), "f": str(f), **{n: str(v) for n, v in vals.items()}}}, False)
     # the interval sweep (one per estimator), then the runtime tests (one per estimator)
-    for what, rp, found in sweep_viol:
+    for what, rp, found in typed_viol + limit_viol + sweep_viol:
         rep.violation("C19/property" if found else "C19/correspondence", what, rp, found)
     done = set()
     for what, rp in meta_viol:
@@ -850,6 +1259,11 @@ def run(rep: C.Report, tier: str) -> int:
         "within 3e-3 unless no neighbouring interval (1-30 % wider / narrower / shifted) has less than half its cost "
         "(the cost has no zero when an end sits on a hard edge or a zero-density gap of the fitted density), "
         "end densities within 10 % of the peak",
+        "cdf of the unimodal model: scipy quad is NOT modelled (C19Cdf.v takes the quadrature as exact); that the fitted "
+        "density carries little probability outside (lwr_limit, upr_limit) is measured on the real estimator "
+        "(coverage.unimodal_limits; <= 5e-3 observed), not proved; the limits themselves are tied to the model by interval goals",
+        "typed query points: equality of the typed and the float64 answers is decided on exact rationals in Coq; the value of the "
+        "float64 answer itself is covered by the other stages (and by C12 for the KDE)",
     ]
     return rep.finish(
         level="proof",
@@ -864,7 +1278,12 @@ def run(rep: C.Report, tier: str) -> int:
              "(400..2500 points, thorough up to 20000) under shift 0..1e6 and scale 1e-6..1e6; interval sweep: both "
              "estimators on seeded normal / gamma / normal+exponential / t5 / lognormal samples of 120..400 points "
              "(thorough 120..900) under every transform, fractions below 1/n, a few /n, 0.02..0.97, 0.99, 0.995..0.9995 "
-             "and above the mass of every window as wide as the sample range")
+             "and above the mass of every window as wide as the sample range; round 4: mirror images of every skewed "
+             "sample (a < 0) and left-skewed base samples in [R] and in the sweep; cdf read as single values inside / 3 sd "
+             "beyond the data and 14, 1e3, 1e6 sd below / above it; integration limits of every unimodal fit vs the model; "
+             "typed query points (Python int, list / tuple of ints, int32 / int64 / float32 arrays and scalars) for pdf and cdf "
+             "of both estimators on data in whole units (10, 3, 25, 150 per sd at 50, 0, 1e6, -4000); log_pdf_model at typed "
+             "whole-number points")
 
 
 def table_property_failures(par):
@@ -918,6 +1337,11 @@ def replay(path):
         bad = sample_property_failures([Fraction(v) for v in rp["sample"]])
     elif chk == "family-affine":
         bad = family_affine_failures(C.rng_for(PROP, "family-affine"))
+    elif chk == "typed":
+        bad = typed_property_failures(rp["estimator"], rp["kind"], rp["n"], tuple(rp["unit"]), rp["stream"],
+                                      rp["method"], rp["form"], rp["index"])
+    elif chk == "limits":
+        bad = limit_property_failures(rp["estimator"], rp["kind"], rp["n"], rp["stream"], tuple(rp["transform"]))
     elif chk == "interval-sweep":
         bad = interval_property_failures(rp["estimator"], rp["kind"], rp["n"], tuple(rp["transform"]), rp["stream"], rp["fraction"])
     else:
